@@ -5,6 +5,7 @@ from props import _generic as g
 def run(ctx):
     fams = ["II", "OO"] if ctx.tier == "quick" else ["II", "OO", "LF", "fs", "QQ"]
     ctx.cvc(fams, ["M-IDX"])
+    fns = g.run_pyvc(ctx, "C15")
     ctx.standin("iter_rt", families=tuple("OO,II".split(",")))
     return "other", (
         "Engine C, M-IDX (translation units %s): the asserted precondition of getBucketEntry (0 <= i < b->len, read on every run "
@@ -12,6 +13,9 @@ def run(ctx):
         "mutations happened between two steps: BTreeItems_item (BTreeItems_seek executed in place, loops cut: the proof rests on "
         "the final re-check of the offset against the activated bucket) and BTreeIter_next (cursor invariant currentoffset >= 0 "
         "assumed on entry and proved at every write). So a lazy sequence / iterator never reads a leaf outside its current "
-        "length. The per-step outcome set {entry, stop, RuntimeError, IndexError}, the Python generators and soundness/contents of "
+        "length. Engine P (%d functions): a running Python iterator holds the leaf's own list objects, and every leaf mutator "
+        "(_set, _del, _split of Bucket and Set) is proved to work IN PLACE on those very objects (clause same_lists) with the "
+        "whole new view stated - so an iterator never walks a detached copy that still shows removed entries. "
+        "The per-step outcome set {entry, stop, RuntimeError, IndexError}, the Python generators and soundness/contents of "
         "the container afterwards are the bounded stand-in iter_rt (interleavings of steps and mutations, crash-isolated)."
-        % ", ".join(fams))
+        % (", ".join(fams), len(fns)))
